@@ -264,11 +264,20 @@ func c01(r *core.Run) {
 					okBr = true
 				}
 			}
-			if phi, ok := in.(*ssa.Phi); ok && phi.Comment == "branchSize" {
+			// the branch-size variable: a loop phi that starts at ChunkSize and is multiplied by
+			// something per iteration (identified by shape, not by its name)
+			if phi, ok := in.(*ssa.Phi); ok {
+				start, grows := false, false
 				for _, e := range phi.Edges {
 					if k, isC := foldedInt(e); isC && k == chunk {
-						okInit = true
+						start = true
 					}
+					if m, isM := e.(*ssa.BinOp); isM && m.Op == token.MUL && (m.X == ssa.Value(phi) || m.Y == ssa.Value(phi)) {
+						grows = true
+					}
+				}
+				if start && grows {
+					okInit = true
 				}
 			}
 		})
